@@ -386,6 +386,56 @@ def rule_flush_output_conservation(ctx, cfg, r):
 
 
 # ---------------------------------------------------------------------------------------------- history bound (R12.6 / R10.7)
+
+_fmc = {}
+
+
+def find_match_clamps_with_size(ctx, cfg):
+    """True when DictOxide::find_match itself limits its distance bound (2nd explicit argument) to the history it holds: every
+    comparison in the function that involves that argument sees it only inside min(self.size, argument)."""
+    if cfg in _fmc:
+        return _fmc[cfg]
+    c = ctx.crate(cfg)
+    g = c.fn("deflate::core::DictOxide::find_match")
+    ctx.touched(g)
+    A = P(3)
+
+    def is_self_size(t):
+        return t[0] == "load" and paths.place_is_field(t[1], "size", "DictOxide") and t[1][1] == ("deref", P(1))
+
+    def is_clamp(t):
+        return t[0] == "pure" and t[1] == "min" and len(t[2]) == 2 and A in [q if q[0] != "cast" else q[1] for q in t[2]] and any(is_self_size(q if q[0] != "cast" else q[1]) for q in t[2])
+
+    def strip(t):
+        if not isinstance(t, tuple) or not t:
+            return t
+        if isinstance(t[0], str) and is_clamp(t):
+            return ("clamped",)
+        return tuple(strip(q) if isinstance(q, tuple) else q for q in t)
+    seen_clamp = False
+    bare = False
+    try:
+        rows = paths.Evaluator(c, effects=ctx.effects(cfg), max_paths=6000, max_blocks=80).run(g)
+        heads = sorted({x.outcome[1] for x in rows if x.outcome[0] == "backedge"})
+        for h in heads:
+            rows += paths.Evaluator(c, effects=ctx.effects(cfg), max_paths=6000, max_blocks=80, stop_blocks=[q for q in heads if q != h]).run(g, start_bb=h)
+    except Exception:
+        _fmc[cfg] = False
+        return False
+    for x in rows:
+        for a, s_ in x.atoms:
+            if paths.term_contains(a, is_clamp):
+                seen_clamp = True
+            if paths.term_contains(strip(a), lambda y: y == A):
+                bare = True
+        for k, v in x.store.items():
+            if isinstance(v, tuple) and paths.term_contains(v, is_clamp):
+                seen_clamp = True
+    # evaluations that start at a loop head see the clamped local as an unknown: the argument must simply never be compared bare
+    _fmc[cfg] = seen_clamp and not bare
+    return _fmc[cfg]
+
+
 def rule_history_bound(ctx, cfg, r):
     """Every match the compressor admits reaches back at most `dict.size` bytes — the amount of history the dictionary holds,
     which a Full flush (and a fresh stream) sets to zero.  Necessary for "a Full flush cuts history" and for "distances never
@@ -577,6 +627,9 @@ def rule_window_accounting(ctx, cfg, r):
                     pass            # growth: dict.size = min(dict.size + n, LZ_DICT_SIZE)
                 else:
                     uses.append((bb, len(blk["s"]), "min(dict.size, ..) as a distance bound", t.get("sp")))
+        if find_match_clamps_with_size(ctx, cfg):
+            for bb, t in call_sites(f, "DictOxide::find_match"):
+                uses.append((bb, len(f.blocks[bb]["s"]), "find_match limits distances to dict.size", t.get("sp")))
         if not refills or not clamps or not uses:
             r.fail(f.name, "window/anchors", "expected refill (%d), clamp (%d) and distance-admission (%d) sites in %s" % (len(refills), len(clamps), len(uses), fname.split("::")[-1]))
             continue
